@@ -130,7 +130,7 @@ func crossingEnv() EnvCfg {
 
 func init() {
 	registerChainCheck(chainCheckDef{id: "C17", name: "supply", want: []string{"supply"}, depth: [2]int{3, 4},
-		menu: func() []BlockSpec { return concatMenus(menuSends()[:3], menuNodes(), menuApps(), menuGov(), menuEnv()) },
+		menu: func() []BlockSpec { return concatMenus(menuSends()[:4], menuNodes(), menuApps(), menuGov(), menuEnv()) },
 		rule: "Invariant: recorded total supply == sum of the balances of every account incl. module accounts, and every balance is canonical and non-negative, in every reachable state."})
 	registerChainCheck(chainCheckDef{id: "C19", name: "nodepool", want: []string{"nodepool"}, depth: [2]int{3, 5},
 		menu: func() []BlockSpec { return concatMenus(menuNodes(), menuEnv(), menuSends()[4:5]) },
